@@ -165,16 +165,16 @@ def cases(ctx, scale=1.0):
     yield 'late-shared', [(G.ORD, '1', ()), (G.ORD, '01', (0,)), (G.ORD, '11', (1,)), (G.ORD, '', (0, 2))], 3, False
     yield 'early-shared', [(G.ORD, '1', ()), (G.ORD, '01', (0,)), (G.ORD, '11', (1,)), (G.ORD, '', (2, 0))], 3, False
     # random small DAGs (content duplicates likely) rooted at the last node, and at inner nodes
-    for t in range(int(ctx.n(90, 360) * scale)):
+    for t in range(int(ctx.n(160, 720) * scale)):
         nodes = G.gen_ordinary_dag(rng, rng.randrange(1, 25), deep=rng.random() < 0.3)
         yield f'rand{t}', nodes, len(nodes) - 1, False
-    for t in range(int(ctx.n(50, 200) * scale)):
+    for t in range(int(ctx.n(100, 400) * scale)):
         nodes = connected_dag(rng, rng.randrange(2, 60), unique=rng.random() < 0.6)
         yield f'conn{t}', nodes, len(nodes) - 1, False
-    for t in range(int(ctx.n(8, 32) * scale)):
+    for t in range(int(ctx.n(12, 48) * scale)):
         yield f'twin{t}', twin_subdags(rng, rng.randrange(1, 12)), None, False
     # exotic cells
-    for t in range(int(ctx.n(40, 160) * scale)):
+    for t in range(int(ctx.n(80, 320) * scale)):
         e = exotic_case(rng, rng.randrange(1, 14))
         if e:
             yield f'exotic{t}', e[0], e[1], False
@@ -197,11 +197,13 @@ def cases(ctx, scale=1.0):
     yield 'chain1023', G.chain(1023, '', 1), None, False
     yield 'chain1023x2', G.chain(1023, '', 2), None, False
     # medium / large
-    for t in range(int(ctx.n(4, 12) * scale)):
+    for t in range(int(ctx.n(6, 16) * scale)):
         n = rng.randrange(100, 700)
         yield f'medium{t}', heap_dag(rng, n, max_extra_bits=64), None, False
     yield 'large3000', heap_dag(rng, 3000), None, True
+    # the 2-byte / 3-byte boundary of the size field (cells = 65536 needs 3 bytes)
+    yield 'cells65536-tree', wide_tree(65536), None, 'flat'
     if ctx.thorough:
-        for n in (65535, 65536):
+        for n in (65535, 65537):
             yield f'cells{n}-tree', wide_tree(n), None, 'flat'       # Lean: byte-level layer only (semantic layer by the Python twin)
         yield 'cells70000-heap', heap_dag(rng, 70000, max_extra_bits=0), None, True       # full Lean strict reader on one option set
